@@ -5,6 +5,8 @@ package query
 //verif:setup VerifC01Setup
 //verif:harness VerifC01Procedures mode=bv tier=quick split=6
 //verif:harness VerifC01Interrupted mode=bv tier=quick split=6
+//verif:setup VerifC01FormatsSetup
+//verif:harness VerifC01InterruptedFormats mode=bv tier=quick split=6
 
 import (
 	"context"
@@ -244,4 +246,50 @@ func verifFlat(s string) string {
 		}
 	}
 	return string(b)
+}
+
+var verifC01Fmt [4][]parser.Statement
+var verifC01FmtSel [4][]parser.Statement
+var verifC01FmtFile = [4]string{"j.jsonl", "k.json", "l.ltsv", "m.tsv"}
+var verifC01FmtOld = [4]string{"{\"id\":1,\"v\":\"a\"}\n", "[{\"id\":1,\"v\":\"a\"}]", "id:1\tv:a\n", "id\tv\n1\ta\n"}
+
+func VerifC01FormatsSetup() {
+	for i, f := range verifC01FmtFile {
+		verifC01Fmt[i] = verifParse("insert into `" + f + "` values (2, 'b'), (3, 'c');")
+		verifC01FmtSel[i] = verifParse("select id, v from `" + f + "`;")
+	}
+}
+
+// An INSERT into a JSON Lines, JSON, LTSV or TSV table with auto-commit, interrupted at any of the
+// first 16 (thorough 32) points at which csvq looks at its context - in particular inside each
+// format's encoder during COMMIT: the file afterwards is byte-identical to the old one, or it is the
+// complete new table (it loads with all three records); an interrupted run reports an error.
+func VerifC01InterruptedFormats() {
+	fi := verifChoice("format", len(verifC01FmtFile))
+	name := verifC01FmtFile[fi]
+	verifFileWrite(name, verifC01FmtOld[fi])
+	tx := verifNewTx()
+	tx.Flags.Quiet = true
+	tx.AutoCommit = true
+	proc := NewProcessor(tx)
+	ctx := &verifCancelCtx{ch: make(chan struct{}, 1), at: 1 + verifChoice("cancel-at", verifBound(16, 32))}
+	_, err := proc.Execute(ctx, verifC01Fmt[fi])
+	e1 := proc.AutoRollback()
+	e2 := proc.ReleaseResourcesWithErrors()
+	verifAssert("rollback and release succeed", e1 == nil && e2 == nil)
+	verifAssert("an interrupted run reports an error", err != nil || !ctx.fired || verifFileRead(name) != verifC01FmtOld[fi])
+	if verifFileRead(name) != verifC01FmtOld[fi] {
+		verifAssert("a changed file belongs to a run that reported success", err == nil)
+		tx2 := verifNewTx()
+		tx2.Flags.Quiet = true
+		proc2 := NewProcessor(tx2)
+		_, e := proc2.Execute(ContextForStoringResults(verifCtx()), verifC01FmtSel[fi])
+		verifAssert("a changed file is the complete new table", e == nil && len(tx2.SelectedViews) == 1 && tx2.SelectedViews[0].RecordLen() == 3)
+		_ = proc2.ReleaseResourcesWithErrors()
+	} else {
+		verifAssert("an unchanged file belongs to a run that failed", err != nil)
+	}
+	verifAssert("no control files remain", verifFileList() == name)
+	verifObserveBool("failed", err != nil)
+	verifReach("end")
 }
